@@ -342,8 +342,10 @@ def vset_random(rng, kind, nops):
     for _ in range(nops):
         r = rng.random()
         n = rng.randrange(0, 8)
-        if r < 0.30:
+        if r < 0.29:
             ops.append(("add " + " ".join(dy(rng) for _ in range(nsc)) + " " + ent()).strip())
+        elif r < 0.32:
+            ops.append("addself")
         elif r < 0.40:
             ops.append("add2 %d %s" % (n, ent()))
         elif r < 0.45:
@@ -521,9 +523,10 @@ PROBES = [
     ("vecr 4", ["sadd S0 0 1/1", "sadd S1 2 3/1", "sappend S0 S1"]),
     ("lprs 2 4", ["add 0/1 1/1 2/1 0 1/1", "add 3/1 4/1 5/1 1 1/1", "add 6/1 7/1 8/1 2 1/1", "rmn 0"]),
     ("lpcs 2 4", ["add 0/1 1/1 2/1 0 1/1", "add 3/1 4/1 5/1 1 1/1", "add 6/1 7/1 8/1 2 1/1", "rmn 0"]),
-    ("svs 2 4", ["add", "add", "copy"]),
-    ("svs 2 4", ["add", "add", "assign 3"]),
-    ("lprs 2 4", ["add 1/1 2/1 3/1", "add 4/1 5/1 6/1", "copy"]),
+    ("svs 2 4", ["add", "add", "mempack", "copy"]),
+    ("svs 2 4", ["add", "add", "mempack", "assign 3"]),
+    ("lprs 2 4", ["add 1/1 2/1 3/1", "add 4/1 5/1 6/1", "mempack", "copy"]),
+    ("lpcs 2 4", ["add 1/1 2/1 3/1", "mempack", "assign 1"]),
     ("idx 5", ["addidx 3", "addidx 1", "addidx 4", "rmr 1 2"]),
     ("idx 5", ["addidx 3", "addidx 1", "addidx 4", "rmr 0 2"]),
     ("didx 2", ["addidx 3", "addidx 1", "addidx 4", "rmr 1 2"]),
@@ -847,7 +850,9 @@ def main():
         "harness/C19.cpp compiled with g++ -fno-access-control against /repo/src (prints public lookups and, for DataSet/ClassSet, the free list)",
         "checks/C19.py (generators, comparison, the independent property oracle used to classify mismatches)"]
     ck.assumptions = ["operations are issued only when their documented preconditions hold (the harness and the model apply the same guard "
-                      "and report 'skip' otherwise); sparse operands of SSVector assignment / multAdd have no repeated index",
+                      "and report 'skip' otherwise); sparse operands of SSVector assignment / multAdd have no repeated index, and multAdd is applied "
+                      "to set-up vectors in which every non-zero is indexed (setValue(i, x) with 0 < |x| <= epsilon stores x without indexing i; "
+                      "multAdd then leaves values of the order of epsilon / the marker 1e-100 un-indexed)",
                       "double entries are small dyadic numbers (k/8, scaled by powers of two, at most a few multiplications by 3) so that the "
                       "floating-point operations are exact; Rational entries are arbitrary small fractions; epsilon = 1e-16 (Tolerances default)",
                       "NameSet growth test size()+1 > 0.7*max() is modelled exactly (10*(size+1) > 7*max); the double product differs from it only "
